@@ -69,6 +69,9 @@ type runner struct {
 	ids   map[string]int
 	stamp int64
 	expAt time.Time // the one expiration instant used by a run: one hour ahead
+
+	bursts []burstRes // what the burst operations of the run returned (burst.go)
+	stale  string     // the first stale version that did not lose its CasByVersion, if any
 }
 
 func (r *runner) id(v string) int {
@@ -300,6 +303,13 @@ func (r *runner) run(c Case) []Ev {
 					if o.Y {
 						runtime.Gosched()
 					}
+					if o.Op.K == "B" {
+						br := r.burst(t, o.Op)
+						r.mu.Lock()
+						r.bursts = append(r.bursts, br)
+						r.mu.Unlock()
+						continue
+					}
 					e := r.exec(t, o.Op, sn)
 					e.R = rd
 					res[t] = append(res[t], e)
@@ -314,6 +324,10 @@ func (r *runner) run(c Case) []Ev {
 		for _, l := range res {
 			hist = append(hist, l...)
 		}
+	}
+	if len(r.bursts) > 0 {
+		sort.SliceStable(r.bursts, func(i, j int) bool { return r.bursts[i].T < r.bursts[j].T })
+		r.stale = r.staleCheck(r.bursts)
 	}
 	sort.SliceStable(hist, func(i, j int) bool { return hist[i].Inv < hist[j].Inv })
 	return hist
@@ -578,7 +592,55 @@ func directChecks(c Case, hist []Ev, s *hx.Sink) {
 var (
 	inmemB, redisB *kvx.Backend
 	phase          = map[string]time.Duration{}
+	burstRates     = map[string][]float64{} // per backend: versions per millisecond of each burst case (wall clock)
+	burstPerMs     = map[string][]int{}     // per backend: most versions sharing one ULID millisecond, per burst case
 )
+
+func msBucket(n int) string {
+	switch {
+	case n < 257:
+		return "<257"
+	case n < 2000:
+		return "257-1999"
+	}
+	return "2000+"
+}
+
+// slashKeys rewrites the keys of a program to their spelling with a leading slash: a -> /a, k7 -> /k/7.
+// A history uses either plain keys or slash keys, never both: the Redis client strips leading slashes
+// (rKey), so "/a" and "a" are ONE Redis key (known finding D10 of C03); as long as only one spelling occurs
+// the client must behave like any other storage.
+func slashKeys(prog []POp) []POp {
+	f := func(k string) string {
+		if len(k) > 1 && k[0] == 'k' {
+			return "/k/" + k[1:]
+		}
+		return "/" + k
+	}
+	res := make([]POp, len(prog))
+	for i, p := range prog {
+		if p.Key != "" {
+			p.Key = f(p.Key)
+		}
+		if p.Keys != nil {
+			ks := make([]string, len(p.Keys))
+			for j, k := range p.Keys {
+				ks[j] = f(k)
+			}
+			p.Keys = ks
+		}
+		if p.Recs != nil {
+			rs := make([]kvx.RecIn, len(p.Recs))
+			for j, x := range p.Recs {
+				x.Key = f(x.Key)
+				rs[j] = x
+			}
+			p.Recs = rs
+		}
+		res[i] = p
+	}
+	return res
+}
 
 func runCase(c Case, s *hx.Sink) (string, Case, bool) {
 	b := inmemB
@@ -618,6 +680,27 @@ func runCase(c Case, s *hx.Sink) (string, Case, bool) {
 	}
 	s.Count(fmt.Sprintf("%s:overlapping-pairs:%s", c.Be, bucket(overlap)))
 	directChecks(c, hist, s)
+	if len(r.bursts) > 0 {
+		what, total, maxPerMs := burstVerdict(r.bursts, r.stale)
+		var el time.Duration
+		for _, b := range r.bursts {
+			if b.Elapsed > el {
+				el = b.Elapsed
+			}
+			s.Count(c.Be + ":burst:" + b.Op.Pat)
+		}
+		rate := 0.0
+		if el > 0 {
+			rate = float64(total) / (float64(el) / float64(time.Millisecond))
+		}
+		burstRates[c.Be] = append(burstRates[c.Be], rate)
+		burstPerMs[c.Be] = append(burstPerMs[c.Be], maxPerMs)
+		s.Count(fmt.Sprintf("%s:burst:most-versions-in-one-millisecond:%s", c.Be, msBucket(maxPerMs)))
+		if what != "" {
+			s.DirectViolation(c.ID, "version freshness under a burst of writes: "+what,
+				fmt.Sprintf("%d versions returned in %v (%.0f per ms overall, at most %d with one ULID millisecond)", total, el, rate, maxPerMs))
+		}
+	}
 	c.Hist = histStrings(hist)
 	hist = expand(c.Be, hist)
 	ts := time.Now()
@@ -697,7 +780,7 @@ func main() {
 	add := func(c Case) {
 		term, c2, ok := runCase(c, s)
 		if ok {
-			s.Add(c2, term, len(c.Prog) >= 4)
+			s.Add(c2, term, len(c.Prog) >= 4 || c.Kind == "burst")
 		}
 	}
 	if fl.From != "" {
@@ -718,16 +801,28 @@ func main() {
 	spent := map[string]time.Duration{}
 	emit := func(be, kind string, procs int, prog []POp) {
 		id++
+		// key spelling: a third of the cases (half of the Redis races) use keys with a leading slash
+		kr := prng.New(fl.Seed, "C02KEYS", id)
+		slash := kr.Chance(1, 3)
+		if be == "redis" && (kind == "casrace" || kind == "creators") {
+			slash = kr.Chance(1, 2)
+		}
+		if slash {
+			prog = slashKeys(prog)
+			s.Count("keys:leading-slash:" + kind + ":" + be)
+		} else {
+			s.Count("keys:plain:" + kind + ":" + be)
+		}
 		t0 := time.Now()
 		add(Case{ID: id, Be: be, Kind: kind, Procs: procs, Prog: prog})
 		spent[kind+":"+be] += time.Since(t0)
 		s.Count("kind:" + kind + ":" + be)
 	}
 
-	type plan struct{ free, crI, crR, casI, casR, pm int }
-	p := plan{free: 1200, crI: 220, crR: 50, casI: 100, casR: 50, pm: 120}
+	type plan struct{ free, crI, crR, casI, casR, pm, buI, buR int }
+	p := plan{free: 1200, crI: 220, crR: 50, casI: 100, casR: 50, pm: 120, buI: 24, buR: 6}
 	if fl.Tier == "thorough" {
-		p = plan{free: 10000, crI: 1500, crR: 300, casI: 800, casR: 300, pm: 800}
+		p = plan{free: 10000, crI: 1500, crR: 300, casI: 800, casR: 300, pm: 800, buI: 200, buR: 40}
 	}
 	// ---- free-running histories
 	for i := 0; i < p.free; i++ {
@@ -819,6 +914,37 @@ func main() {
 		}
 		emit(be, "putmany", pickProcs(r), prog)
 	}
+	// ---- version freshness under a burst of writes (burst.go)
+	bursts := func(be string, n, lo, hi int, salt string) {
+		for i := 0; i < n; i++ {
+			r := prng.New(fl.Seed, salt, uint64(i))
+			W := int64(r.Range(lo, hi))
+			prog := []POp{{T: -1, Op: kvx.Op{K: "C", Key: "a", Val: 2}}}
+			switch mode := prng.Pick(r, []string{"put", "put", "cas", "putmany", "mixed"}); mode {
+			case "put": // one to three goroutines Put the same record
+				G := r.Range(1, 3)
+				for g := 0; g < G; g++ {
+					prog = append(prog, POp{T: g, Op: kvx.Op{K: "B", Key: "a", Val: 2, D: W, Pat: "put"}})
+				}
+			case "mixed": // a CasByVersion chain on one key while another goroutine hammers another key
+				prog = append(prog, POp{T: 0, Op: kvx.Op{K: "B", Key: "a", Val: 2, D: W, Pat: "cas"}},
+					POp{T: 1, Op: kvx.Op{K: "B", Key: "b", Val: 0, D: W, Pat: prng.Pick(r, []string{"put", "putmany"})}})
+			default:
+				prog = append(prog, POp{T: 0, Op: kvx.Op{K: "B", Key: "a", Val: 2, D: W, Pat: mode}})
+			}
+			emit(be, "burst", 0, prog)
+		}
+	}
+	bursts("inmem", p.buI, 3000, 8000, "C02BI")
+	bursts("redis", p.buR, 300, 600, "C02BR")
+	for be, l := range burstRates {
+		sort.Float64s(l)
+		s.Extra["burst_versions_per_ms_wallclock_min_median_max:"+be] = []float64{l[0], l[len(l)/2], l[len(l)-1]}
+	}
+	for be, l := range burstPerMs {
+		sort.Ints(l)
+		s.Extra["burst_most_versions_in_one_ulid_millisecond_min_median_max:"+be] = []int{l[0], l[len(l)/2], l[len(l)-1]}
+	}
 	for k, d := range spent {
 		s.Extra["harness_ms:"+k] = d.Milliseconds()
 	}
@@ -828,7 +954,9 @@ func main() {
 	s.Close("free: T=2..6 goroutines x K=2..6 operations (Create, Get, GetMany, Put, PutMany incl. batches mixing records with and without expiration, CasByVersion with the current/stale/unknown version as seen by that goroutine, Delete; one sixth of the written records expire in one hour) over keys {a,b}, "+
 		"half on inmem.New(), half on the Redis client over miniredis, all goroutines of a round released together, GOMAXPROCS in {default,4,8,16}, random yields; "+
 		"creators: rounds of N=2..8 goroutines Create one absent key (a new key per round); casrace: rounds of N=2..8 goroutines CasByVersion against the one version the set-up created "+
-		"(sometimes with a concurrent Delete); putmany: rounds of N=2..5 goroutines PutMany overlapping keys and read them back. Every history is linearised by an untrusted search and the witness is verified in Coq by Lin.valid_lin against spec/KV.v "+
+		"(sometimes with a concurrent Delete); putmany: rounds of N=2..5 goroutines PutMany overlapping keys and read them back; "+
+		"burst: 1..3 goroutines write one record 3000..8000 times back to back (Put / CasByVersion chain with the version just returned / PutMany+Get; 300..600 on Redis): all returned versions pairwise different, every earlier version loses a CasByVersion with ErrConflict (only the set-up of a burst case goes to Coq). "+
+		"A third of the cases (half of the Redis races) spell their keys with a leading slash (/a, /b, /k/7), never mixed with plain keys inside one history. Every history is linearised by an untrusted search and the witness is verified in Coq by Lin.valid_lin against spec/KV.v "+
 		"(a Redis PutMany with an expiring record enters the history as one write per record). "+
-		"distinct = by content hash of program and recorded history; non-trivial = at least 4 operations", false)
+		"distinct = by content hash of program and recorded history; non-trivial = at least 4 operations, or a burst", false)
 }
